@@ -61,3 +61,26 @@ fn sheet_name_case(max: usize) {
 }
 pub fn h_c22_sheet_name() { sheet_name_case(2); reach("C22.sheet_name"); }
 pub fn ht_c22_sheet_name3() { sheet_name_case(3); reach("C22.sheet_name3"); }
+
+/// names that look like something else: booleans, cell references, R1C1 references, numbers with exponents
+/// (every text of length <= max over the characters T R U E F A L S C 1)
+fn lookalike_case(max: usize) {
+    let name = any_ascii_string(max);
+    let b = name.as_bytes();
+    assume(b.len() >= 1);
+    let mut i = 0;
+    while i < b.len() {
+        let c = b[i];
+        assume((c == b'T') | (c == b'R') | (c == b'U') | (c == b'E') | (c == b'F') | (c == b'A') | (c == b'L') | (c == b'S') | (c == b'C') | (c == b'1'));
+        i += 1;
+    }
+    let text = format!("{}!A1", quote_name(&name));
+    let locale = locale_with(".", ",");
+    let mut lx = Lexer::new(&text, LexerMode::A1, &locale, language_en());
+    let ok = match lx.next_token() {
+        TokenType::Reference { sheet: Some(s), row: 1, column: 1, absolute_row: false, absolute_column: false } => s == name,
+        _ => false,
+    };
+    check("C22.sheet_name.lookalike_read_back", ok && lx.next_token() == TokenType::EOF);
+}
+pub fn h_c22_sheet_name_lookalikes() { lookalike_case(5); reach("C22.sheet_name_lookalikes"); }
